@@ -272,3 +272,27 @@ func FmtInts(v []*big.Int) string {
 	}
 	return s + "]"
 }
+
+// FlattenInputs splits one value per circuit argument into one value per
+// compound member, which is what Circuit.Compute expects.
+func FlattenInputs(c *circuit.Circuit, in []*big.Int) []*big.Int {
+	var out []*big.Int
+	for i, arg := range c.Inputs {
+		if len(arg.Compound) == 0 {
+			out = append(out, in[i])
+			continue
+		}
+		ofs := 0
+		for _, m := range arg.Compound {
+			v := new(big.Int)
+			for b := 0; b < int(m.Type.Bits); b++ {
+				if in[i].Bit(ofs+b) == 1 {
+					v.SetBit(v, b, 1)
+				}
+			}
+			ofs += int(m.Type.Bits)
+			out = append(out, v)
+		}
+	}
+	return out
+}
